@@ -20,6 +20,14 @@ INFO = {
    text="Lean 4 theorems for all arguments: fibonacci = the Fibonacci recurrence, factorial = n! (never fails), one-bit left/right shift = *2 and /2 on values for every limb vector, the rounding decision of floor/ceil/round yields the integer z with z <= x < z+1 / z-1 < x <= z / nearest with ties away from zero, and the greedy roman decomposition denotes n. Executable Lean models of nCr/nPr, mod, and/or/xor, multi-bit shifts, words, roman, char are diffed against the implementation on every run (raw limb vectors through the hooks, BigRat level, text level, and API level with arguments produced by cancelling histories) with Python int/Fraction arithmetic and independent text readers as search oracles.",
    note="Proved: fib, factorial, shl1/shr1, rounding decision, roman denotation. Carried by correspondence + oracle only (no theorem yet): bitwise and/or/xor, lshift_n/rshift_n composition, nCr/nPr, mod, to_words, char/codepoint, and the divmod that floor/ceil/round call. Trusted: Lean kernel + 3 axioms, harness/python.",
    technique="Lean 4 refinement proofs (BigUint -> Nat functions) + differential correspondence", ref="7/C10"),
+ "C12": dict(
+   text="Lean 4 theorem by mutual structural induction: for EVERY representable value (14 Value constructors, 17 Expr constructors, scopes and optional scopes nested to any depth, numbers with distributions / units / bases / formats, dates, strings, all 29 built-in functions) deserialize(serialize v ++ rest) = (v, rest), and the same for the whole variable table. The byte-level model is tied to the Rust by parsing the REAL serialized bytes of random statement histories with the model (it must reproduce them byte for byte), by comparing the image written after a real reload (order-independently), and by 7 behavioural probes per variable before and after the reload.",
+   note="Trusted: Lean kernel + 3 axioms; Model/Serialize.lean is hand-written (tie: real bytes are parsed and re-emitted by the model on every run); 'behaves exactly as before' beyond structural equality of the reloaded table is covered by the probes (evaluation is a function of the table). HashMap iteration order is canonicalised before comparing.",
+   technique="Lean 4 mutual-induction round-trip proof + correspondence on real serialized bytes", ref="7/C12"),
+ "C14": dict(
+   text="Lean 4 theorems about the deserializer model for ALL byte strings: a length field can never make a read succeed unless that many elements are really present (so a huge length ends in the short-read error), accepted strings are valid UTF-8 of honest length, a loaded Base is in 2..=36, a loaded big integer has at least one limb, a loaded date has year != 0 / month 1..12 / day 1..31; plus a regenerated table (Tie A) proving that no deserializer pre-allocates from a length it has just read. Tied to the Rust by running Context::deserialize_variables on every truncation, byte substitution, extreme length field and random bytes of valid images under a counting allocator and an address-space limit, comparing the ok/error class and the reloaded table with the model, then printing/applying/re-saving every loaded variable.",
+   note="Partial: stack depth is runtime truth the model cannot exhibit — recursion depth is linear in the input and a ~10 KB image of nested tags overflows the stack (recorded as KNOWN-FINDING D5, not repaired). 'Loaded context can be evaluated without crashing' is carried by the use-phase of the correspondence run (with an interrupt deadline), not by a theorem. Trusted: Lean kernel + 3 axioms, translator/alloc_sites.py, harness.",
+   technique="Lean 4 inversion lemmas over the deserializer model + regenerated allocation-site table + differential fault injection on images", ref="7/C14"),
 }
 def main():
     hooks = subprocess.check_output("git -C /repo log --format=%H --grep='verif-hooks' --grep='verif hooks' -i", shell=True, text=True).split()
